@@ -1,10 +1,18 @@
 import FpgoVerif.Model.C05Impl
+import FpgoVerif.Model.C04Spec
 /-! Protocol, spec-level oracle and `handle`/`judge` for property C05 (core-only).
 
     Case line:   `<kind> <operand>* : <op> ; <op> ; …`   (written `L [0.1] nil: union ; inter`)
       kind `L`  operands are element lists      `nil` | `[]` | `[0.1.2]`
       kind `M`  operands are key→value maps     `nil` | `nilmap` | `{}` | `{0:10,1:11}`
       kind `S`  operands are key→stream maps    `nil` | `{}` | `{0:[0.1],1:[]}`
+      kind `Q`  like `S`, but the operands are built ONCE and the ops form a history on the same objects:
+                `union:r:a` (receiver = object #r, argument = object #a or `n` for nil) appends its result as a
+                new object; after every op ALL objects are printed (`<o0>|<o1>|…|<result>`), so a later
+                op that disturbs an operand or an earlier result is visible.  A stream written
+                `[0.1+2]` has two spare slots of capacity behind its two items (content `[0.1]`).
+    Function arguments (`s.map:k`, `s.filter:k`, `s.sort:k`, `m.mapkey:k`, …) are indices into the
+    function family shared with C04 (`C04.Spec.mapFn/predFn/lessFn/keyFn/valFn` = `c04MapFn…` in Go).
     `nil` is a nil slice (kind L, function operands), a nil pointer / nil interface (method
     arguments); a receiver given as `nil` is a non-nil pointer to a nil slice / nil map.
     Observation: one item per op joined by ` | `: `g=<generic result> i=<interface{} twin result>`
@@ -39,7 +47,7 @@ def allSome {β : Type} : List (Option β) → Option (List β)
 /-- `[]`, `[0.1.2]` -/
 def parseList (s : String) : Option (List Nat) :=
   if s.startsWith "[" && s.endsWith "]" then
-    let body := inner s
+    let body := ((inner s).splitOn "+").headD ""   -- `+n` = spare capacity, not content
     if body = "" then some [] else allSome ((body.splitOn ".").map String.toNat?)
   else none
 
@@ -104,6 +112,15 @@ def opArg (op : String) : String × String :=
   | n :: rest => (n, ":".intercalate rest)
   | [] => ("", "")
 
+/-! ### the function family shared with C04 (elements are naturals here; the generator only uses
+    indices whose results stay non-negative) -/
+
+def famMap (k : Nat) (x i : Nat) : Nat := (C04.Spec.mapFn k (x : Int) i).toNat
+def famPred (k : Nat) (x i : Nat) : Bool := C04.Spec.predFn k (x : Int) i
+def famLess (k : Nat) (a b : Nat) : Bool := C04.Spec.lessFn k (a : Int) (b : Int)
+def famKey (k : Nat) (x : Nat) : Nat := (C04.Spec.keyFn k (x : Int)).toNat
+def famVal (k : Nat) (x : Nat) : Nat := (C04.Spec.valFn k (x : Int)).toNat
+
 /-! ### running one op on the implementation models: `(generic, twin)`; `none` twin = no twin -/
 
 def both (s : String) : String × Option String := (s, some s)
@@ -131,6 +148,28 @@ def runL (opds : List (Option (List Nat))) (op : String) : String × Option Stri
   | "s.has", a :: _ => match arg.toNat? with
     | some x => both (showBool (Stream.contains (lst a) x))
     | none => bad
+  | "s.map", a :: _ => match arg.toNat? with
+    | some k => both (showList (Stream.map (famMap k) (lst a)))
+    | none => bad
+  | "s.filter", a :: _ => match arg.toNat? with
+    | some k => both (showList (Stream.filter (famPred k) (lst a)))
+    | none => bad
+  | "s.reject", a :: _ => match arg.toNat? with
+    | some k => both (showList (Stream.reject (famPred k) (lst a)))
+    | none => bad
+  | "s.filternotnil", a :: _ => both (showList (Stream.filterNotNil (lst a)))
+  | "s.sort", a :: _ => match arg.toNat? with
+    | some k => both (showList (Stream.sort (famLess k) (lst a)))
+    | none => bad
+  | "s.sortidx", a :: _ => match arg.toNat? with
+    | some k => both (showList (Stream.sort (famLess k) (lst a)))
+    | none => bad
+  | "s.get", a :: _ => match arg.toInt? with
+    | some i => both (showRes toString (Stream.get (lst a) i))
+    | none => bad
+  | "s.from", a :: _ => both (showList (lst a))
+  | "s.len", a :: _ => both (toString (Stream.len (lst a)))
+  | "s.toarray", a :: _ => both (showList (Stream.toArray (lst a)))
   | "s.remove", a :: _ => match arg.toInt? with
     | some k => (showList (G.streamRemove (lst a) k), some (showList (I.streamRemove (lst a) k)))
     | none => bad
@@ -149,9 +188,29 @@ def runL (opds : List (Option (List Nat))) (op : String) : String × Option Stri
 
 def mp (o : Option (GoMap Nat Nat)) : GoMap Nat Nat := o.getD []
 
-def runM (opds : List (Option (GoMap Nat Nat))) (op : String) : String × Option String :=
+def runM (raw : List String) (opds : List (Option (GoMap Nat Nat))) (op : String) : String × Option String :=
   let (name, arg) := opArg op
+  let nilRecv := raw.headD "" = "nil" || raw.headD "" = "nilmap"
   match name, opds with
+  | "m.values", a :: _ => both (showSorted (MapSet.values (mp a)))
+  | "m.get", a :: _ => match arg.toNat? with
+    | some k => both (toString (MapSet.get 0 (mp a) k))
+    | none => bad
+  | "m.hasval", a :: _ => match arg.toNat? with
+    | some v => both (showBool (MapSet.containsValue (mp a) v))
+    | none => bad
+  | "m.rmvals", a :: _ => match parseList arg with
+    | some l => both (showMap (MapSet.removeValues (mp a) l))
+    | none => bad
+  | "m.mapkey", a :: _ => match arg.toNat? with
+    | some k => both (showMap (MapSet.mapKey (famKey k) (mp a)))
+    | none => bad
+  | "m.mapval", a :: _ => match arg.toNat? with
+    | some k => both (showMap (MapSet.mapValue (famVal k) (mp a)))
+    | none => bad
+  | "m.set", a :: _ => match parseKV arg with
+    | some (k, v) => if nilRecv then both "panic" else both (showMap (MapSet.set (mp a) k v))
+    | none => bad
   | "m.union", a :: b :: _ => both (showMap (MapSet.union (mp a) b))
   | "m.inter", a :: b :: _ => both (showMap (MapSet.intersection (mp a) b))
   | "m.minus", a :: b :: _ => both (showMap (MapSet.minus (mp a) b))
@@ -169,7 +228,7 @@ def runM (opds : List (Option (GoMap Nat Nat))) (op : String) : String × Option
   | "m.keys", a :: _ => both (showSorted (MapSet.keys (mp a)))
   | "m.size", a :: _ => both (toString (MapSet.size (mp a)))
   | "m.clone", a :: _ => both (showMap (MapSet.clone (mp a)))
-  | "m.fromarray", _ => match parseList arg with
+  | "m.fromarray", _ | "m.from", _ => match parseList arg with
     | some l => both (showMap (sliceToMap 0 l))
     | none => bad
   | "merge", a :: b :: _ => both (showMap (merge (mp a) (mp b)))
@@ -181,8 +240,18 @@ def runM (opds : List (Option (GoMap Nat Nat))) (op : String) : String × Option
 
 def ssv (o : Option (GoMap Nat (List Nat))) : GoMap Nat (List Nat) := o.getD []
 
+/-- a StreamSet whose entries may be nil streams (`Add` stores the zero value = a nil pointer) -/
+def showSSO (m : GoMap Nat (Option (List Nat))) : String :=
+  "{" ++ ",".intercalate ((sortKeys m).map (fun p => s!"{p.1}:{(p.2.map showList).getD "nil"}")) ++ "}"
+def optSS (m : GoMap Nat (List Nat)) : GoMap Nat (Option (List Nat)) := m.map (fun p => (p.1, some p.2))
+def sortStr (l : List String) : List String := l.mergeSort (fun a b => decide (a ≤ b))
+
 def runS (opds : List (Option (GoMap Nat (List Nat)))) (op : String) : String × Option String :=
-  match op, opds with
+  let (name, arg) := opArg op
+  match name, opds with
+  | "ss.fromarray", _ | "ss.from", _ => match parseList arg with
+    | some l => both (showSS (l.foldl (fun (m : GoMap Nat (List Nat)) k => mset m k []) []))
+    | none => bad
   | "ss.union", a :: b :: _ => (showSS (G.ssUnion (ssv a) b), some (showSS (I.ssUnion (ssv a) b)))
   | "ss.inter", a :: b :: _ => (showSS (G.ssIntersection (ssv a) b), some (showSS (I.ssIntersection (ssv a) b)))
   | "ss.minusstreams", a :: b :: _ =>
@@ -194,7 +263,77 @@ def runS (opds : List (Option (GoMap Nat (List Nat)))) (op : String) : String ×
     (showBool (G.ssIsSupersetByKey (ssv a) b), some (showBool (I.ssIsSupersetByKey (ssv a) b)))
   | "ss.clone", a :: _ => (showSS (G.ssClone (ssv a)), some (showSS (I.ssClone (ssv a))))
   | "ss.frommap", a :: _ => (showSS (G.streamSetFromMap (ssv a)), some (showSS (I.streamSetFromMap (ssv a))))
+  -- methods both StreamSet types only have by promotion from the embedded set
+  | "ss.size", a :: _ => both (toString (MapSet.size (G.streamSetFromMap (ssv a))))
+  | "ss.keys", a :: _ => both (showSorted (MapSet.keys (G.streamSetFromMap (ssv a))))
+  | "ss.has", a :: _ => match arg.toNat? with
+    | some k => both (showBool (MapSet.containsKey (G.streamSetFromMap (ssv a)) k))
+    | none => bad
+  | "ss.get", a :: _ => match arg.toNat? with
+    | some k => both (((mget (G.streamSetFromMap (ssv a)) k).map showList).getD "nil")
+    | none => bad
+  | "ss.values", a :: _ =>
+    both ("(" ++ "/".intercalate (sortStr ((MapSet.values (G.streamSetFromMap (ssv a))).map showList)) ++ ")")
+  | "ss.rmkeys", a :: _ => match parseList arg with
+    | some l => both (showSS (MapSet.removeKeys (G.streamSetFromMap (ssv a)) l))
+    | none => bad
+  | "ss.add", a :: _ => match parseList arg with
+    | some l => both (showSSO (MapSet.add none (optSS (G.streamSetFromMap (ssv a))) l))
+    | none => bad
+  | "ss.set", a :: _ => match parseKS arg with
+    | some (k, v) => both (showSS (MapSet.set (G.streamSetFromMap (ssv a)) k v))
+    | none => bad
+  | "ss.mapkey", a :: _ => match arg.toNat? with
+    | some k => both (showSS (MapSet.mapKey (famKey k) (G.streamSetFromMap (ssv a))))
+    | none => bad
   | _, _ => bad
+
+/-! ### kind Q: a history of StreamSet operations on the same objects -/
+
+def listGet? {β : Type} (l : List β) (s : String) : Option β := s.toNat?.bind (fun n => l[n]?)
+
+/-- one op of a history: `(new object of the generic family, of the interface{} family)` -/
+def stepQ (gobjs iobjs : List (GoMap Nat (List Nat))) (op : String) :
+    Option (GoMap Nat (List Nat) × GoMap Nat (List Nat)) :=
+  match op.splitOn ":" with
+  | [name, r, a] =>
+    match listGet? gobjs r, listGet? iobjs r with
+    | some gr, some ir =>
+      let ga := if a = "n" then some none else (listGet? gobjs a).map some
+      let ia := if a = "n" then some none else (listGet? iobjs a).map some
+      match ga, ia with
+      | some ga, some ia =>
+        match name with
+        | "union" => some (G.ssUnion gr ga, I.ssUnion ir ia)
+        | "inter" => some (G.ssIntersection gr ga, I.ssIntersection ir ia)
+        | "minusstreams" => some (G.ssMinusStreams gr ga, I.ssMinusStreams ir ia)
+        | "minus" => some (G.ssMinus gr ga, I.ssMinus ir ia)
+        | _ => none
+      | _, _ => none
+    | _, _ => none
+  | ["clone", r] =>
+    match listGet? gobjs r, listGet? iobjs r with
+    | some gr, some ir => some (G.ssClone gr, I.ssClone ir)
+    | _, _ => none
+  | _ => none
+
+def dumpQ (objs : List (GoMap Nat (List Nat))) : String := "|".intercalate (objs.map showSS)
+
+def runQ (c : Case) : List (String × Option String) :=
+  match allSome (c.opds.map parseSSOpd) with
+  | none => c.ops.map (fun _ => bad)
+  | some o =>
+    let init := o.map ssv
+    let rec go (gobjs iobjs : List (GoMap Nat (List Nat))) : List String → List (String × Option String)
+      | [] => []
+      | op :: rest =>
+        match stepQ gobjs iobjs op with
+        | some (g, i) =>
+          let gobjs := gobjs ++ [g]
+          let iobjs := iobjs ++ [i]
+          (dumpQ gobjs, some (dumpQ iobjs)) :: go gobjs iobjs rest
+        | none => bad :: go gobjs iobjs rest
+    go init init c.ops
 
 def showObs (r : String × Option String) : String :=
   match r.2 with
@@ -207,7 +346,7 @@ def runOp (c : Case) (op : String) : String × Option String :=
     | some o => runL o op
     | none => bad
   | "M" => match allSome (c.opds.map parseMapOpd) with
-    | some o => runM o op
+    | some o => runM c.opds o op
     | none => bad
   | "S" => match allSome (c.opds.map parseSSOpd) with
     | some o => runS o op
@@ -217,7 +356,8 @@ def runOp (c : Case) (op : String) : String × Option String :=
 /-- protocol entry point -/
 def handle (line : String) : String :=
   let c := parseCase line
-  " | ".intercalate (c.ops.map (fun op => showObs (runOp c op)))
+  if c.kind = "Q" then " | ".intercalate ((runQ c).map showObs)
+  else " | ".intercalate (c.ops.map (fun op => showObs (runOp c op)))
 
 /-! ### Spec: what the property demands (membership laws, no duplicates, order of the first operand)
     — stated without reference to the implementation models; evaluated by `judge` on what the real
@@ -441,6 +581,44 @@ def judgeOp (c : Case) (op obs : String) : Option String :=
       if modelHasTwin then some s!"{op}: twin result missing"
       else (specOp c op g).map (fun w => s!"{op}: {w} (got {g})")
 
+/-- index of the first object whose printed content differs from what it was -/
+def firstChanged : Nat → List String → List String → Option Nat
+  | j, a :: as, b :: bs => if a = b then firstChanged (j + 1) as bs else some j
+  | _, _, _ => none
+
+/-- kind Q: the oracle keeps the objects AS THE REAL CODE PRINTED THEM; per op it demands twin agreement,
+    that no operand / earlier result changed, and the law of the new result w.r.t. the objects it was
+    computed from -/
+def judgeQgo (objs : List String) : List (String × String) → Option String
+  | [] => none
+  | (op, ob) :: rest =>
+    match parseObs ob with
+    | none => some s!"{op}: unreadable observation '{ob}'"
+    | some (g, none) => if g = "bad-op" then judgeQgo objs rest else some s!"{op}: twin result missing"
+    | some (g, some i) =>
+      if g ≠ i then some s!"{op}: twin-mismatch generic={g} interface={i}" else
+      let parts := g.splitOn "|"
+      if parts.length ≠ objs.length + 1 then some s!"{op}: unreadable object dump '{g}'" else
+      match firstChanged 0 objs parts with
+      | some j => some s!"{op}: object #{j} (an operand or an earlier result the caller still holds) changed from {objs.getD j ""} to {parts.getD j ""}"
+      | none =>
+        let res := parts.getLast?.getD ""
+        let law : Option String :=
+          match op.splitOn ":" with
+          | [name, r, a] =>
+            match (listGet? objs r).bind parseSS with
+            | some recv =>
+              let arg : Option (Option (GoMap Nat (List Nat))) :=
+                if a = "n" then some none else ((listGet? objs a).bind parseSS).map some
+              match arg with
+              | some arg => specS [some recv, arg] ("ss." ++ name) res
+              | none => none
+            | none => none
+          | _ => none
+        match law with
+        | some w => some s!"{op}: {w} (got {res})"
+        | none => judgeQgo parts rest
+
 def zipOps : List String → List String → List (String × String)
   | o :: os, b :: bs => (o, b) :: zipOps os bs
   | o :: os, [] => (o, "") :: zipOps os []
@@ -451,7 +629,13 @@ def judge (line impl : String) : String :=
   let c := parseCase line
   let obs := impl.splitOn " | "
   if impl = "hang" || impl = "crash" || impl = "panic" then s!"violation the call did not return normally ({impl})" else
-  match (zipOps c.ops obs).filterMap (fun p => judgeOp c p.1 p.2) with
+  let verdicts : List String :=
+    if c.kind = "Q" then
+      match allSome (c.opds.map parseSSOpd) with
+      | some o => (judgeQgo ((o.map ssv).map showSS) (zipOps c.ops obs)).toList
+      | none => []
+    else (zipOps c.ops obs).filterMap (fun p => judgeOp c p.1 p.2)
+  match verdicts with
   | [] => "allowed twins agree and the set laws hold on this case (the model differs outside the demanded scope or in an unordered/undemanded detail)"
   | w :: _ => s!"violation {w}"
 
